@@ -77,7 +77,7 @@ def r11_2(ctx):
 
         def is_key_probe(ev):
             # a stat of (some candidate shard directory + the raw key name)
-            if ev['path'] not in ('std::fs::metadata', 'std::fs::symlink_metadata', 'std::path::Path::exists', 'std::fs::exists', 'std::path::Path::try_exists'):
+            if prims.classify(ev['path'])[0] != 'probe' or not ev['args']:
                 return False
             d, leaf = T.split_path(ev['args'][0])
             if leaf is None:
